@@ -6,7 +6,7 @@ from hypothesis import strategies as st
 from pbt import build, gens, oracles as O
 from pbt.common import build_input
 from pbt.runner import Outcome
-from pbt.sut import Bar, BarException, Key
+from pbt.sut import Bar, BarException, Key, Message, MT, Sequence, RelativeSequence
 
 ID = "C10"
 MIN_NONTRIVIAL = 0.5
@@ -73,7 +73,17 @@ def _case(draw):
     spec = {"notes": notes, "meta": meta}
     spec.update(draw(gens.route()))
     spec["pad"] = target if draw(st.integers(0, 4)) > 0 else None
-    return {"seq": spec, "num": num, "den": den, "key": draw(st.one_of(st.none(), st.sampled_from(gens.KEYS)))}
+    case = {"seq": spec, "num": num, "den": den, "key": draw(st.one_of(st.none(), st.sampled_from(gens.KEYS)))}
+    # what happens between construction and copy: nothing, or a read of the bar's absolute view / duration
+    case["consult"] = draw(st.sampled_from([None, None, "abs", "duration"]))
+    if draw(st.integers(0, 5)) == 0:
+        # grace notes: a note-on directly followed by its note-off (zero length) in a hand-written relative message list;
+        # pitches outside the pool of the ordinary notes. Only event-level comparisons apply to such input.
+        spec["route"], spec["post"] = "rel", None
+        spec.pop("split_waits", None)
+        case["grace"] = draw(st.lists(st.tuples(st.integers(0, 30), st.sampled_from([0, 1]), st.sampled_from([70, 71]),
+                                                st.integers(1, 127)).map(list), min_size=1, max_size=2))
+    return case
 
 
 def strategy(params, shard, nshards):
@@ -84,10 +94,26 @@ def check(case):
     out = Outcome()
     num, den = case["num"], case["den"]
     cap = 96 * num // den
-    built = build_input(out, case["seq"])
-    if built is None:
-        return out
-    seq, ev0, d0, notes0 = built
+    if case.get("grace"):
+        out.label("grace-notes")
+        try:
+            msgs = build.to_relative(build.abs_messages(case["seq"]))
+            for k, ch, p, v in case["grace"]:
+                at = k % (len(msgs) + 1)
+                msgs[at:at] = [Message(message_type=MT.NOTE_ON, channel=ch, note=p, velocity=v),
+                               Message(message_type=MT.NOTE_OFF, channel=ch, note=p)]
+            seq = Sequence(relative_sequence=RelativeSequence(msgs))
+            if case["seq"].get("pad") is not None:
+                seq.pad(case["seq"]["pad"])
+            ev0, d0 = O.seq_events(seq)
+        except Exception as e:
+            out.inconclusive = f"input-construction-raised:{type(e).__name__}"
+            return out
+    else:
+        built = build_input(out, case["seq"])
+        if built is None:
+            return out
+        seq, ev0, d0, notes0 = built
     ts0 = [(e[5], e[6]) for e in ev0 if e[1] == O.TS]
     conflicting = any(v != (num, den) for v in ts0)
     must_reject = d0 > cap or conflicting
@@ -132,6 +158,10 @@ def check(case):
         out.fail("views-disagree", f"rel {O.canon((ev_r, d_r))} abs {O.canon((ev_a, d_a))}")
     # copy
     try:
+        if case.get("consult") == "abs":
+            _ = bar.sequence.abs
+        elif case.get("consult") == "duration":
+            bar.sequence.get_sequence_duration()
         cpy = bar.copy()
         c_ev = O.canon(O.seq_events(cpy.sequence))
     except Exception as e:
